@@ -456,6 +456,60 @@ func cpuTaint(ctx *Ctx, v ssa.Value, depth int) string {
 			if !ok {
 				bad += fmt.Sprintf(" used in %s at %s;", x.Op, ctx.pos(x.Pos()))
 			}
+		case *ssa.Phi:
+			// count-down spawn loop: `for n := NumCPU(); n > 0; n--` - the phi is compared with a
+			// constant to leave the loop, stepped by a constant into itself, and the loop spawns
+			okPhi := false
+			hdr := x.Block()
+			for _, b := range x.Parent().Blocks {
+				if hdr.Dominates(b) && reachableFrom(b)[hdr] {
+					for _, ins := range b.Instrs {
+						if _, isGo := ins.(*ssa.Go); isGo {
+							okPhi = true
+						}
+					}
+				}
+			}
+			for _, r2 := range *x.Referrers() {
+				switch y := r2.(type) {
+				case *ssa.DebugRef:
+				case *ssa.BinOp:
+					_, cx := y.X.(*ssa.Const)
+					_, cy := y.Y.(*ssa.Const)
+					switch y.Op {
+					case token.LSS, token.LEQ, token.GTR, token.GEQ, token.NEQ, token.EQL:
+						for _, r3 := range *y.Referrers() {
+							if _, isIf := r3.(*ssa.If); !isIf {
+								if _, isDbg := r3.(*ssa.DebugRef); !isDbg {
+									okPhi = false
+								}
+							}
+						}
+						if !cx && !cy {
+							okPhi = false
+						}
+					case token.ADD, token.SUB:
+						// the step: constant, and it only feeds the phi
+						if !cx && !cy {
+							okPhi = false
+						}
+						for _, r3 := range *y.Referrers() {
+							if r3 != ssa.Instruction(x) {
+								if _, isDbg := r3.(*ssa.DebugRef); !isDbg {
+									okPhi = false
+								}
+							}
+						}
+					default:
+						okPhi = false
+					}
+				default:
+					okPhi = false
+				}
+			}
+			if !okPhi {
+				bad += fmt.Sprintf(" flows into %T at %s;", ref, ctx.pos(ref.Pos()))
+			}
 		default:
 			bad += fmt.Sprintf(" flows into %T at %s;", ref, ctx.pos(ref.Pos()))
 		}
